@@ -261,6 +261,66 @@ func cmdVerify(args []string) (code int) {
 	// loops renumbered by an edit: functions with `loop n` blocks and a failing obligation are retried with the other
 	// order-preserving assignments of contract loops to code loops
 	for i, fv := range fvs {
+		if fv.fn != nil && fv.sweepMode && cfg.Sweep != nil {
+			// a function of the no-panic sweep with an undischarged obligation: if a loop was moved into a new helper by an edit
+			// the helper is an opaque call now; retry with such helpers inlined (their loops cut like the function's own)
+			failing := false
+			for _, o := range fv.obls {
+				if !o.Cover && o.Result != "unsat" {
+					failing = true
+				}
+			}
+			if failing {
+				var fv2 *FuncVC
+				func() {
+					defer func() {
+						if r := recover(); r != nil {
+							fv2 = nil
+						}
+					}()
+					fv2 = NewFuncVC(v, fv.fn, fv.con, cfg.ID)
+					fv2.sweepMode = true
+					fv2.inlineLoopHelpers = true
+					fv2.VerifyTop()
+				}()
+				if fv2 != nil && len(fv2.obls) > 0 {
+					DischargeAll(fv2.obls, workdir, timeout, runtime.NumCPU(), seed, false)
+					ok := true
+					for _, o := range fv2.obls {
+						if o.Cover {
+							if o.Result == "unsat" {
+								ok = false
+							}
+						} else if o.Result != "unsat" {
+							ok = false
+						}
+					}
+					if os.Getenv("GOCV_DEBUG_RETRY") != "" {
+						for _, o := range fv2.obls {
+							if !o.Cover && o.Result != "unsat" {
+								fmt.Fprintf(os.Stderr, "[sweep-retry] %s %s %s\n", o.Name, o.Result, o.Pos)
+							}
+						}
+					}
+					if ok {
+						fmt.Fprintf(os.Stderr, "note: %s: discharges with its loop helpers inlined (a loop moved into a helper by an edit)\n", shortFuncName(fv.fn))
+						old := map[*Obligation]bool{}
+						for _, o := range fv.obls {
+							old[o] = true
+						}
+						var kept []*Obligation
+						for _, o := range allObls {
+							if !old[o] {
+								kept = append(kept, o)
+							}
+						}
+						allObls = append(kept, fv2.obls...)
+						fvs[i] = fv2
+					}
+				}
+			}
+			continue
+		}
 		if fv.fn == nil || fv.con == nil || len(fv.con.Loops) == 0 || fv.sweepMode {
 			continue
 		}
